@@ -1,4 +1,9 @@
 import PqlModel.Props.C16a
+import PqlModel.Props.C16
 #print axioms Pql.C16.C16_statement_sim
 #print axioms Pql.C16.C16_statements_sim
 #print axioms Pql.C16.C16_output_monotone
+#print axioms Pql.C16.C16_refines
+#print axioms Pql.C16.C16_refines_all
+#print axioms Pql.C16.C16_last_terminated_or_not
+#print axioms Pql.C16.C16_last_terminated_or_not_cli
